@@ -203,31 +203,24 @@ func TryPatch(patch string, reverse bool, props []string, verif, repo string) in
 		// copy into a temp location under the system temp dir and reference it absolutely
 		rel = abs
 	}
-	type out struct {
-		prop string
-		res  mutantResult
+	// one subprocess, one load, all requested properties
+	m := Mutant{ID: filepath.Base(patch), Patch: rel, Reverse: reverse}
+	if rr, err := filepath.Rel(verif, abs); err == nil && !strings.HasPrefix(rr, "..") {
+		m.Patch = rr
+	} else {
+		m.Patch = abs
 	}
-	results := make([]out, len(props))
-	sem := make(chan struct{}, 8)
-	var wg sync.WaitGroup
-	for i, pr := range props {
-		wg.Add(1)
-		go func(i int, pr string) {
-			defer wg.Done()
-			sem <- struct{}{}
-			defer func() { <-sem }()
-			m := Mutant{ID: filepath.Base(patch), Patch: rel, Reverse: reverse}
-			if filepath.IsAbs(rel) {
-				m.Patch = rel
-			}
-			results[i] = out{pr, runOneMutantAbs(exe, pr, verif, repo, m)}
-		}(i, pr)
-	}
-	wg.Wait()
+	results := runManyOnMutant(exe, props, verif, repo, m, abs)
 	any := 0
-	for _, o := range results {
-		if o.res.Status != "UNDETECTED" {
-			fmt.Printf("%s %s %s\n", o.prop, o.res.Status, o.res.Rules)
+	for _, pr := range props {
+		res, ok := results[pr]
+		if !ok {
+			fmt.Printf("%s error (no result)\n", pr)
+			any++
+			continue
+		}
+		if res.Status != "UNDETECTED" {
+			fmt.Printf("%s %s %s\n", pr, res.Status, res.Rules)
 			any++
 		}
 	}
@@ -246,4 +239,113 @@ func runOneMutantAbs(exe, prop, verif, repo string, m Mutant) mutantResult {
 		}
 	}
 	return runOneMutant(exe, prop, verif, repo, m)
+}
+
+// runManyOnMutant applies the patch through overlays and runs the given properties in one process.
+func runManyOnMutant(exe string, props []string, verif, repo string, m Mutant, absPatch string) map[string]mutantResult {
+	out := map[string]mutantResult{}
+	tmp, err := os.MkdirTemp("", "rcheck-mutant-")
+	if err != nil {
+		return out
+	}
+	defer os.RemoveAll(tmp)
+	pb, err := os.ReadFile(absPatch)
+	if err != nil {
+		return out
+	}
+	var files []string
+	for _, line := range strings.Split(string(pb), "\n") {
+		if strings.HasPrefix(line, "+++ b/") {
+			files = append(files, strings.TrimPrefix(line, "+++ b/"))
+		}
+	}
+	src := filepath.Join(tmp, "src")
+	for _, f := range files {
+		if strings.HasSuffix(f, "_test.go") {
+			continue
+		}
+		c, err := os.ReadFile(filepath.Join(repo, f))
+		if err != nil {
+			return out
+		}
+		_ = os.MkdirAll(filepath.Dir(filepath.Join(src, f)), 0o755)
+		_ = os.WriteFile(filepath.Join(src, f), c, 0o644)
+	}
+	args := []string{"apply", "--whitespace=nowarn"}
+	if m.Reverse {
+		args = append(args, "-R")
+	}
+	args = append(args, "--exclude=*_test.go", absPatch)
+	cmd := exec.Command("git", args...)
+	cmd.Dir = src
+	if o, err := cmd.CombinedOutput(); err != nil {
+		for _, pr := range props {
+			out[pr] = mutantResult{Status: "stale", Rules: strings.TrimSpace(string(o))}
+		}
+		return out
+	}
+	ov := map[string]map[string]string{"Replace": {}}
+	for _, f := range files {
+		if strings.HasSuffix(f, "_test.go") {
+			continue
+		}
+		ov["Replace"][filepath.Join(repo, f)] = filepath.Join(src, f)
+	}
+	ovb, _ := json.Marshal(ov)
+	ovPath := filepath.Join(tmp, "overlay.json")
+	_ = os.WriteFile(ovPath, ovb, 0o644)
+	c2 := exec.Command(exe, "-property", strings.Join(props, ",")+",", "-tier", "quick", "-repo", repo, "-verif", verif, "-overlay", ovPath, "-evidence-dir", filepath.Join(tmp, "ev"))
+	o, _ := c2.CombinedOutput()
+	// split the output per property at the "== Cnn exit=N" trailer lines
+	var buf []string
+	for _, line := range strings.Split(string(o), "\n") {
+		if strings.HasPrefix(line, "== ") && strings.Contains(line, " exit=") {
+			f := strings.Fields(line)
+			prop := f[1]
+			code := strings.TrimPrefix(f[2], "exit=")
+			res := mutantResult{}
+			switch code {
+			case "0":
+				res.Status = "UNDETECTED"
+			case "1":
+				res.Status = "detected"
+				rules := map[string]bool{}
+				for _, l := range buf {
+					if strings.HasPrefix(l, "VIOLATED rule=") || strings.HasPrefix(l, "UNDECIDED rule=") {
+						ff := strings.Fields(l)
+						if len(ff) > 1 {
+							rules[strings.TrimPrefix(ff[1], "rule=")] = true
+						}
+					}
+				}
+				var rs []string
+				for k := range rules {
+					rs = append(rs, k)
+				}
+				sort.Strings(rs)
+				res.Rules = strings.Join(rs, ",")
+			default:
+				res.Status = "error"
+				t := strings.Join(buf, " | ")
+				if len(t) > 300 {
+					t = t[len(t)-300:]
+				}
+				res.Rules = t
+			}
+			out[prop] = res
+			buf = nil
+			continue
+		}
+		buf = append(buf, line)
+	}
+	if len(out) == 0 {
+		t := strings.TrimSpace(string(o))
+		if len(t) > 300 {
+			t = t[len(t)-300:]
+		}
+		for _, pr := range props {
+			out[pr] = mutantResult{Status: "error", Rules: t}
+		}
+	}
+	return out
 }
